@@ -247,6 +247,45 @@ pub fn solve_with_config(problem: Arc<Problem>, config: &Value) -> SolveOutcome 
     }
 }
 
+/// The same path with an initial solution (as `vrp-cli solve --init-solution` does): the solution document is read with the public
+/// `read_init_solution`, turned into an `InsertionContext` and handed to `create_builder_from_config`.
+/// An `Err` starting with "init-solution:" means the document was not accepted as initial solution (C11's subject).
+pub fn solve_with_config_and_init(problem: Arc<Problem>, config: &Value, init_solution: &Value) -> SolveOutcome {
+    use vrp_cli::extensions::solve::config::create_builder_from_config;
+    use vrp_core::construction::heuristics::InsertionContext;
+    use vrp_core::rosomaxa::prelude::{DefaultRandom, Environment};
+    use vrp_core::solver::Solver;
+    use vrp_pragmatic::format::solution::{PragmaticOutputType, read_init_solution, write_pragmatic};
+    let text = serde_json::to_string(config).unwrap();
+    let cfg = match read_config(BufReader::new(text.as_bytes())) {
+        Ok(c) => c,
+        Err(e) => return SolveOutcome::Err(format!("config rejected: {e}")),
+    };
+    let init_text = serde_json::to_string(init_solution).unwrap();
+    let p2 = problem.clone();
+    let init = match guard(move || read_init_solution(BufReader::new(init_text.as_bytes()), p2, Arc::new(DefaultRandom::default()))) {
+        Ok(Ok(s)) => s,
+        Ok(Err(e)) => return SolveOutcome::Err(format!("init-solution: {e}")),
+        Err(p) => return SolveOutcome::Err(format!("init-solution: reader panicked: {} at {}", p.message, p.location)),
+    };
+    match guard(move || {
+        let ctx = InsertionContext::new_from_solution(problem.clone(), (init, None), Arc::new(Environment::default()));
+        let solution = create_builder_from_config(problem.clone(), vec![ctx], &cfg)
+            .and_then(|builder| builder.build())
+            .map(|config| Solver::new(problem.clone(), config))
+            .and_then(|solver| solver.solve())
+            .map_err(|e| e.to_string())?;
+        let mut writer = std::io::BufWriter::new(Vec::new());
+        write_pragmatic(problem.as_ref(), &solution, PragmaticOutputType::default(), &mut writer).map_err(|e| e.to_string())?;
+        let bytes = writer.into_inner().map_err(|e| e.to_string())?;
+        String::from_utf8(bytes).map_err(|e| e.to_string())
+    }) {
+        Ok(Ok(s)) => SolveOutcome::Ok(s),
+        Ok(Err(e)) => SolveOutcome::Err(e),
+        Err(p) => SolveOutcome::Panic(p),
+    }
+}
+
 /// A small default config with `gens` generations.
 pub fn simple_config(gens: usize, pools: usize, threads: usize) -> Value {
     json!({
